@@ -24,12 +24,12 @@ pub fn intern(s: &str) -> &'static str {
     })
 }
 
-pub type Cell = Rc<RefCell<Option<Term<'static>>>>;
+pub type Cell<'a> = Rc<RefCell<Option<Term<'a>>>>;
 
 // Importer: hole ids map to shared cells.
 #[derive(Default)]
 pub struct Importer {
-    pub cells: HashMap<usize, Cell>,
+    pub cells: HashMap<usize, Cell<'static>>,
 }
 
 fn mk(v: Variant<'static>) -> Term<'static> {
@@ -42,7 +42,7 @@ fn mk(v: Variant<'static>) -> Term<'static> {
 const BINOPS: [&str; 9] = ["sum", "diff", "prod", "quot", "lt", "le", "eq", "gt", "ge"];
 
 impl Importer {
-    pub fn cell(&mut self, id: usize) -> Cell {
+    pub fn cell(&mut self, id: usize) -> Cell<'static> {
         self.cells
             .entry(id)
             .or_insert_with(|| Rc::new(RefCell::new(None)))
@@ -131,15 +131,20 @@ impl Importer {
 }
 
 // Exporter: holes numbered by pointer identity in first-visit order (ids of imported cells are kept).
-#[derive(Default)]
-pub struct Exporter {
-    pub ids: HashMap<*const RefCell<Option<Term<'static>>>, usize>,
-    pub cells: Vec<(usize, Cell)>,
+pub struct Exporter<'a> {
+    pub ids: HashMap<*const RefCell<Option<Term<'a>>>, usize>,
+    pub cells: Vec<(usize, Cell<'a>)>,
     pub next: usize,
     pub ranges: bool,
 }
 
-impl Exporter {
+impl<'a> Default for Exporter<'a> {
+    fn default() -> Self {
+        Exporter { ids: HashMap::new(), cells: vec![], next: 0, ranges: false }
+    }
+}
+
+impl Exporter<'static> {
     pub fn from_importer(imp: &Importer) -> Self {
         let mut e = Exporter::default();
         let mut ids: Vec<_> = imp.cells.iter().collect();
@@ -151,8 +156,10 @@ impl Exporter {
         }
         e
     }
+}
 
-    pub fn id_of(&mut self, c: &Cell) -> usize {
+impl<'a> Exporter<'a> {
+    pub fn id_of(&mut self, c: &Cell<'a>) -> usize {
         let p = Rc::as_ptr(c);
         if let Some(i) = self.ids.get(&p) {
             *i
@@ -166,7 +173,7 @@ impl Exporter {
     }
 
     // zonk = true: solved holes are replaced by their (shifted) solution.
-    pub fn term(&mut self, t: &Term<'static>, zonk: bool) -> Sx {
+    pub fn term(&mut self, t: &Term<'a>, zonk: bool) -> Sx {
         let body = self.term0(t, zonk);
         if self.ranges {
             if let Some(r) = t.source_range {
@@ -176,8 +183,8 @@ impl Exporter {
         body
     }
 
-    fn term0(&mut self, t: &Term<'static>, zonk: bool) -> Sx {
-        let b = |me: &mut Self, h: &str, x: &Term<'static>, y: &Term<'static>| {
+    fn term0(&mut self, t: &Term<'a>, zonk: bool) -> Sx {
+        let b = |me: &mut Self, h: &str, x: &Term<'a>, y: &Term<'a>| {
             l(vec![a(h), me.term(x, zonk), me.term(y, zonk)])
         };
         match &t.variant {
